@@ -22,13 +22,21 @@ theorem consts_eq :
     Lumina.Gen.C04.SHARE_SIZE = 512 ∧ Lumina.Gen.C04.SHARE_SIZE = Lumina.Model.Eds.SHARE_SIZE := by
   decide
 
+/-- the byte strings hashed by the two computations `sample_sound` compares: everything hashed when the DAH of the
+    square is computed (`edsInputs`: leaf and inner-node preimages of all row and column trees, and the empty string behind
+    `EMPTY_ROOT`) and everything hashed while the verifier checks this sample (`sampleInputs`) -/
+def hashedC04 (H : HashFn) (e : Eds) (s : Sample) : List Bytes := edsInputs H e ++ sampleInputs H s
+
 /-- **Soundness, both proof axes, every square of power-of-two width, every sample, every coordinate.**
     `Sample::verify` (as fixed) accepts only if the sample's share is exactly the share at the requested row and
-    column of the square whose DAH it is checked against.  Hypotheses: idealised hash; the sizes that the Rust
-    array types guarantee (namespaced hashes are 29+29+32 bytes, shares are at least a namespace long). -/
-theorem sample_sound {H : HashFn} (hk : HashOK H) {e : Eds} {k : Nat} (hw : e.width = 2 ^ k)
+    column of the square whose DAH it is checked against.  Hypotheses: the hash has 32-byte output and NO COLLISION AMONG
+    THE INPUTS ACTUALLY HASHED by the two computations (`hashedC04`, a finite explicit list — satisfiable, see the
+    non-vacuity example); the sizes that the Rust array types guarantee (namespaced hashes are 29+29+32 bytes, shares are
+    at least a namespace long). -/
+theorem sample_sound {H : HashFn} {e : Eds} {k : Nat} (hw : e.width = 2 ^ k)
     (hsz : ∀ sh ∈ e.shares, NS_SIZE ≤ sh.data.length) {dah : Dah} (hd : Dah.ofEds H e = .ok dah)
-    (s : Sample) (hss : NS_SIZE ≤ s.share.data.length) (hsib : ∀ p ∈ s.proof.siblings, p.WF) (row col : Nat) :
+    (s : Sample) (hss : NS_SIZE ≤ s.share.data.length) (hsib : ∀ p ∈ s.proof.siblings, p.WF) (row col : Nat)
+    (hk : HashOKOn H (fun y => y ∈ hashedC04 H e s)) :
     specVerify e.width (rawSquare e) row col s.share.data (accepted (verify H s row col dah)) = true := by
   cases hv : verify H s row col dah with
   | error er => simp [accepted, specVerify]
@@ -63,7 +71,7 @@ theorem sample_sound {H : HashFn} (hk : HashOK H) {e : Eds} {k : Nat} (hw : e.wi
               have hst' : s.proof.start = col := by simpa using hst
               cases hvr : luminaVerifyRange H s.proof rr [s.share.data] s.share.ns with
               | error er => simp [hvr] at hv
-              | ok u' => exact axis_leaf_bound hk hw hsz hrr1 hcol hss hsib (luminaVerifyRange_ok hvr) hst'
+              | ok u' => exact axis_leaf_bound_on hk hw hsz hrr1 hcol hss hsib (fun y hy => List.mem_append_left _ (axisInputs_mem_eds hrow hy)) (fun y hy => List.mem_append_right _ hy) (luminaVerifyRange_ok hvr) hst'
           | col =>
             simp only [hp] at hv
             split at hv
@@ -72,34 +80,25 @@ theorem sample_sound {H : HashFn} (hk : HashOK H) {e : Eds} {k : Nat} (hw : e.wi
               have hst' : s.proof.start = row := by simpa using hst
               cases hvr : luminaVerifyRange H s.proof cr [s.share.data] s.share.ns with
               | error er => simp [hvr] at hv
-              | ok u' => exact axis_leaf_bound hk hw hsz hcr1 hrow hss hsib (luminaVerifyRange_ok hvr) hst'
+              | ok u' => exact axis_leaf_bound_on hk hw hsz hcr1 hrow hss hsib (fun y hy => List.mem_append_left _ (axisInputs_mem_eds hcol hy)) (fun y hy => List.mem_append_right _ hy) (luminaVerifyRange_ok hvr) hst'
         obtain ⟨sh, hsh, hdata⟩ := key
         unfold Eds.share? at hsh
         simp only [accepted, specVerify, shareAt, hrow, hcol, and_self, ↓reduceIte, rawSquare, Bool.not_true,
           Bool.false_or, List.getElem?_map, hsh, Option.map_some, hdata, beq_self_eq_true]
 
 
-/-- Soundness in reduction form (satisfiable by real hashes): for a hash with 32-byte output, either the
-    verdict is sound or the hash has an explicit collision. -/
-theorem sample_sound_or_collision {H : HashFn} (hl : HashLen H) {e : Eds} {k : Nat} (hw : e.width = 2 ^ k)
+/-- **Reduction form**: for ANY hash with 32-byte output, if `Sample::verify` accepts a share that is not the share at
+    the requested coordinates, then two DIFFERENT byte strings among the explicitly listed inputs hashed by the DAH
+    computation and by the verifier (`hashedC04`) have the same digest. -/
+theorem sample_forgery_yields_collision {H : HashFn} (hl : HashLen H) {e : Eds} {k : Nat} (hw : e.width = 2 ^ k)
     (hsz : ∀ sh ∈ e.shares, NS_SIZE ≤ sh.data.length) {dah : Dah} (hd : Dah.ofEds H e = .ok dah)
-    (s : Sample) (hss : NS_SIZE ≤ s.share.data.length) (hsib : ∀ p ∈ s.proof.siblings, p.WF) (row col : Nat) :
-    specVerify e.width (rawSquare e) row col s.share.data (accepted (verify H s row col dah)) = true ∨
-      ∃ x y, x ≠ y ∧ H x = H y := by
-  by_cases hinj : Function.Injective H
-  · exact Or.inl (sample_sound ⟨hinj, hl⟩ hw hsz hd s hss hsib row col)
-  · right
-    unfold Function.Injective at hinj
-    have : ∃ x y, H x = H y ∧ x ≠ y := by
-      apply Classical.byContradiction
-      intro hn
-      apply hinj
-      intro a b hab
-      apply Classical.byContradiction
-      intro hne
-      exact hn ⟨a, b, hab, hne⟩
-    obtain ⟨x, y, h1, h2⟩ := this
-    exact ⟨x, y, h2, h1⟩
+    (s : Sample) (hss : NS_SIZE ≤ s.share.data.length) (hsib : ∀ p ∈ s.proof.siblings, p.WF) (row col : Nat)
+    (hbad : specVerify e.width (rawSquare e) row col s.share.data (accepted (verify H s row col dah)) = false) :
+    CollisionIn H (fun y => y ∈ hashedC04 H e s) := by
+  rcases noCollOn_or_collision H (fun y => y ∈ hashedC04 H e s) with h | h
+  · have := sample_sound hw hsz hd s hss hsib row col ⟨h, hl⟩
+    rw [this] at hbad; cases hbad
+  · exact h
 
 /-- **Completeness.**  For every valid square (what `ExtendedDataSquare::new` accepts), every coordinate inside
     it and both proof axes: `Sample::new` succeeds, encoding and decoding (`RawSample`) gives the sample back, and
@@ -137,11 +136,6 @@ theorem sample_fixed_on_counterexample :
   decide
 
 /-! ### Non-vacuity -/
-
-/-- the hypotheses of `sample_sound` other than `HashOK` (which no function satisfies: the theorem is the usual
-    collision reduction, see `sample_sound_or_collision`) hold of a concrete square and an accepted sample -/
-example : cexEds.width = 2 ^ 1 ∧ Dah.ofEds toyH cexEds = .ok cexDah ∧
-    accepted (verify toyH cexSample 0 1 cexDah) = true := ⟨rfl, rfl, by decide⟩
 
 /-- a toy hash with 32-byte output -/
 def toyH32 : HashFn := fun x => (x ++ List.replicate 32 0).take 32
@@ -186,5 +180,29 @@ theorem nonvacuity_okEds_valid : ValidSquare okEds 1 where
 set_option maxRecDepth 20000 in
 /-- the hypotheses of `sample_complete` hold of a concrete hash, square and DAH -/
 example : HashLen toyH32 ∧ ValidSquare okEds 1 ∧ Dah.ofEds toyH32 okEds = .ok okDah := ⟨nonvacuity_toyH32_len, nonvacuity_okEds_valid, rfl⟩
+
+/-! ### Non-vacuity of `sample_sound`: ALL hypotheses hold on a concrete instance -/
+
+def sumDah : Dah := match Dah.ofEds toySum okEds with | .ok d => d | .error _ => default
+/-- the honest sample of position (0,1) of `okEds` (512-byte shares), row proof, under the toy hash -/
+def sumSample : Sample :=
+  match Lumina.Model.Sample.new toySum okEds 0 1 .row with | .ok s => s | .error _ => default
+
+set_option maxRecDepth 100000 in
+/-- the toy hash has no collision among the 15 byte strings hashed for this square and this sample -/
+theorem nonvacuity_toySum_nocoll : NoCollOn toySum (fun y => y ∈ hashedC04 toySum okEds sumSample) :=
+  noCollOn_of_list (by decide)
+
+set_option maxRecDepth 100000 in
+/-- `sample_sound` applied to a concrete accepted sample: every hypothesis (incl. relative collision-freeness) holds -/
+example : accepted (verify toySum sumSample 0 1 sumDah) = true ∧
+    specVerify okEds.width (rawSquare okEds) 0 1 sumSample.share.data (accepted (verify toySum sumSample 0 1 sumDah)) = true := by
+  refine ⟨by decide, ?_⟩
+  have hsib : ∀ p ∈ sumSample.proof.siblings, p.WF := by
+    have h : sumSample.proof.siblings.all (fun x => decide x.WF) = true := by decide
+    intro p hp
+    simpa using List.all_eq_true.mp h p hp
+  exact sample_sound (k := 1) rfl (fun sh hm => by rw [nonvacuity_okEds_valid.size sh hm]; decide) (dah := sumDah) rfl
+    sumSample (by decide) hsib 0 1 ⟨nonvacuity_toySum_nocoll, toySum_len⟩
 
 end Lumina.Props.C04
